@@ -341,6 +341,34 @@ def zoom_rule(ctx, p, K):
             and canon_bounds(got, y0 + yr, x0 + xr, H, W) == bounds(y0 + yr, x0 + xr, H, W)
         shp = getattr(S.env.get(out[0]), "shape", None)
         ok = ok and shp is not None and shp[:2] == (y1 - y0, x1 - x0)
+    if not ok and len(sts) == 1 and not sts[0].loops:
+        # the same window written as ONE block copy: the overlap [max(o, 0), min(e, extent)) of the window [o, e) with the frame, copied to the same cells shifted by -o
+        st = sts[0]
+        det = repr(st)[:300]
+
+        def sl(ix):
+            ats = list(ix.atoms()) if isinstance(ix, Poly) else []
+            if len(ats) == 1 and ats[0][0] == "f" and ats[0][1] == "slice" and ix == Poly.atom(ats[0]):
+                lo, hi, step = ats[0][2]
+                if repr(step) in ("None", "1"):
+                    return lo, hi
+            return None
+        y0, x0, y1, x1 = S_("y0"), S_("x0"), S_("y1"), S_("x1")
+        okb = len(st.idx) == 2 and isinstance(st.value, Ref) and st.value.name == "A" and len(st.value.idx) == 2 and st.op == "="
+        if okb:
+            for k_, (o_, e_, n_) in enumerate(((y0, y1, H), (x0, x1, W))):
+                d_, s_ = sl(st.idx[k_]), sl(st.value.idx[k_])
+                lo_w, hi_w = Poly.fn("max", o_, ZERO), Poly.fn("min", e_, n_)
+                lo_alt = Poly.fn("max", ZERO, o_)
+                hi_alt = Poly.fn("min", n_, e_)
+                okb = okb and d_ is not None and s_ is not None and s_[0] in (lo_w, lo_alt) and s_[1] in (hi_w, hi_alt) and d_[0] == s_[0] - o_ and d_[1] == s_[1] - o_
+            # the only guard allowed: the overlap is not empty (an empty block copies nothing either way)
+            for g in real_guards(st.guards):
+                for c_ in g.flat_and():
+                    okb = okb and c_.kind == "cmp" and c_.args[1] in ("<", "<=") and any(c_.args[0] in (Poly.fn("max", o_, ZERO), Poly.fn("max", ZERO, o_)) and c_.args[2] in (Poly.fn("min", e_, n_), Poly.fn("min", n_, e_))
+                                                                                                 for o_, e_, n_ in ((y0, y1, H), (x0, x1, W))) and c_.args[1] == "<"
+        shp = getattr(S.env.get(out[0]), "shape", None)
+        ok = okb and shp is not None and shp[:2] == (y1 - y0, x1 - x0)
     ctx.ob(rule, f.key, ok, where=f, node=f.node, construct=det,
            message="window cell (i, j) must hold source pixel (y0 + i, x0 + j) whenever that pixel exists (cells outside the frame stay zero): the window is never shifted, whatever part of it leaves the frame")
     c = p.cls("autoarray.structures.arrays.uniform_2d:AbstractArray2D")
